@@ -3,8 +3,8 @@
   python3 mc/seedtest.py verify <dir-with-patch.diff-and-demo.py> <tag>
       scratch worktree of /repo HEAD under /tmp: demo must pass WITHOUT the patch, fail WITH it, and the
       repository's test suite must pass exactly the baseline's stable set with the patch applied.
-  python3 mc/seedtest.py detect <dir> <CHECK> [<CHECK> ...]
-      apply the patch to /repo, run the quick tier of the given checks, ALWAYS revert; prints verdicts.
+  python3 mc/seedtest.py detect <dir> <tag> <CHECK> [<CHECK> ...]
+      scratch worktree with the patch applied, quick tier of the given checks run against it (MC_REPO).
 """
 import json
 import os
@@ -54,25 +54,68 @@ def verify(d, tag):
     return out
 
 
-def detect(d, checks):
-    assert sh("git -C /repo status --porcelain").stdout.strip() == "", "/repo is not clean"
-    r = sh(f"git -C /repo apply {os.path.join(d, 'patch.diff')}")
+def detect(d, checks, tag="x"):
+    """Runs the checks against a scratch worktree of /repo HEAD with the patch applied (MC_REPO), so that /repo
+    itself - which background runs may be reading - is never modified."""
+    wt = f"/tmp/dw_{tag}"
+    sh(f"git -C /repo worktree remove --force {wt}")
+    r = sh(f"git -C /repo worktree add -q --detach {wt} HEAD")
     assert r.returncode == 0, r.stderr
     res = {}
     try:
+        r = sh(f"git -C {wt} apply {os.path.join(d, 'patch.diff')}")
+        assert r.returncode == 0, r.stderr
+        env = dict(os.environ, MC_REPO=wt, PYTHONPATH=wt)
         for c in checks:
-            p = sh([PY, "-m", "mc.run", c, "--tier", "quick"], cwd="/verif", timeout=7200)
+            ev = f"/verif/evidence/{c}.json"
+            keep = open(ev).read() if os.path.exists(ev) else None
+            p = sh([PY, "-m", "mc.run", c, "--tier", "quick"], cwd="/verif", timeout=7200, env=env)
+            if keep is not None:
+                open(ev, "w").write(keep)  # evidence files only ever describe runs against /repo itself
             lines = p.stdout.strip().splitlines()
             viol = [l for l in lines if l.startswith("  violation")][:3]
             res[c] = {"exit": p.returncode, "summary": lines[-1] if lines else "", "first_violations": [v[:400] for v in viol]}
     finally:
-        sh("git -C /repo checkout -- .")
-        assert sh("git -C /repo status --porcelain").stdout.strip() == ""
+        sh(f"git -C /repo worktree remove --force {wt}")
     return res
 
 
+def process(prop, m, checks):
+    """verify + detect one seeded change and file it under /verif/seeded/<prop>-<m>/."""
+    import shutil
+
+    src = f"/tmp/seed_{prop}/{m}"
+    tag = f"{prop}_{m}"
+    v = verify(src, tag)
+    dres = detect(src, checks, tag) if v.get("patch_applies") else {}
+    dst = f"/verif/seeded/{prop}-{m}"
+    os.makedirs(dst, exist_ok=True)
+    for f in ("patch.diff", "demo.py", "notes.md"):
+        if os.path.exists(os.path.join(src, f)):
+            shutil.copy(os.path.join(src, f), dst)
+    notes = open(os.path.join(src, "notes.md")).read() if os.path.exists(os.path.join(src, "notes.md")) else ""
+    meta = {
+        "property": prop,
+        "origin": "independent sub-agent given only the property text and a scratch worktree",
+        "needs_to_manifest": notes[:1500],
+        "confirmed_by_me": v,
+        "what_i_ran": {
+            "verify": "scratch worktree of /repo HEAD: demo.py without patch (exit 0 expected), git apply patch.diff, demo.py (non-zero expected), full pytest suite compared with BASELINE.json stable_pass",
+            "detect": "quick tier of the listed checks with MC_REPO pointing at a scratch worktree holding the patch",
+        },
+        "detection": dres,
+        "detected_by": sorted(c for c, r in dres.items() if r["exit"] == 1),
+        "kept": bool(v.get("confirmed")),
+    }
+    with open(os.path.join(dst, "meta.json"), "w") as f:
+        json.dump(meta, f, indent=1)
+    print(f"{prop}-{m}: confirmed={v.get('confirmed')} suite_ok={v.get('suite_ok')} demo(with)={v.get('demo_with_patch_exit')} demo(without)={v.get('demo_without_patch_exit')} detected_by={meta['detected_by']} exits={ {c: r['exit'] for c, r in dres.items()} }")
+
+
 if __name__ == "__main__":
-    if sys.argv[1] == "verify":
+    if sys.argv[1] == "process":
+        process(sys.argv[2], sys.argv[3], sys.argv[4:])
+    elif sys.argv[1] == "verify":
         print(json.dumps(verify(sys.argv[2], sys.argv[3]), indent=1))
     else:
-        print(json.dumps(detect(sys.argv[2], sys.argv[3:]), indent=1))
+        print(json.dumps(detect(sys.argv[2], sys.argv[4:], sys.argv[3]), indent=1))
